@@ -15,6 +15,14 @@
 //	S…                       snapshot of the session's streams / requestStreams / isDone read from the real structs
 //
 // Stream ids, session ids and event ids are renamed in order of first appearance (t0 = standalone "").
+//
+// Fan-out ops (C10): `plain <sess> id=<n> m=sub` POSTs resources/subscribe; `fanout <sess> <req> x<post> <h|b> <serial> |
+// <sessions…>` makes the SERVER call Server.ResourceUpdated while request <req> of <sess> is in flight — with the handler's
+// own context (h) or context.Background() (b); every subscribed session gets a copy tagged F.<sess>.<req>.x<post>.<h|b>.<serial>.
+// `emit … L …` is ServerSession.Log to the handler's own session (the control).
+// Store-pressure op (C08): `getp <sessA> hv= last= k=<k> | <sessB> <req> x<post> <c|d> n=<n> <serial>`: a resume of <sessA>
+// during which — after the k-th item EventStore.After yielded, i.e. inside acquireStream's collect loop — ANOTHER session's
+// handler writes n notifications (each Append of the bounded MemoryEventStore purges first).
 package mcp
 
 import (
@@ -145,6 +153,19 @@ type rzStore struct {
 	parkAppend chan struct{} // non-nil: the next Append blocks here until closed
 	parkAfter  chan struct{}
 	parkOpen   chan struct{} // non-nil: the next Open blocks here until closed (an event store is an I/O boundary)
+	// one-shot: after the k-th item the next After yielded (or at the end of its iteration when it has fewer), run fire()
+	// on the iterating goroutine — store pressure from another session in the middle of a replay
+	afterHook *rzAfterHook
+	// one-shot: the next Append fails (an EventStore is an I/O boundary: a database/disk/quota backed one can fail);
+	// nothing is recorded as ground truth, the inner store is not called
+	failAppend bool
+	failed     bool
+}
+
+type rzAfterHook struct {
+	k     int
+	fire  func()
+	where string // "" not fired; "mid" fired between two items; "end" fired after the last item / the error
 }
 
 func (s *rzStore) Open(ctx context.Context, sess, stream string) error {
@@ -174,6 +195,11 @@ func (s *rzStore) Append(ctx context.Context, sess, stream string, data []byte) 
 		<-p
 	}
 	s.h.mu.Lock()
+	if s.failAppend {
+		s.failAppend, s.failed = false, true
+		s.h.mu.Unlock()
+		return errors.New("verif: event store append failed")
+	}
 	s.h.sawStream(sess, stream)
 	s.h.appends = append(s.h.appends, rzAppend{sess: sess, stream: stream, data: append([]byte(nil), data...)})
 	s.h.mu.Unlock()
@@ -188,7 +214,36 @@ func (s *rzStore) After(ctx context.Context, sess, stream string, index int) ite
 	if p != nil {
 		<-p
 	}
-	return s.inner.After(ctx, sess, stream, index)
+	s.h.mu.Lock()
+	hook := s.afterHook
+	s.afterHook = nil
+	s.h.mu.Unlock()
+	inner := s.inner.After(ctx, sess, stream, index)
+	if hook == nil {
+		return inner
+	}
+	return func(yield func([]byte, error) bool) {
+		n := 0
+		for d, err := range inner {
+			// (the inner iterator has read item n already; items n+1… are read after the pressure)
+			if !yield(d, err) {
+				if hook.where == "" {
+					hook.where = "end"
+					hook.fire()
+				}
+				return
+			}
+			n++
+			if err == nil && n == hook.k && hook.where == "" {
+				hook.where = "mid"
+				hook.fire()
+			}
+		}
+		if hook.where == "" {
+			hook.where = "end"
+			hook.fire()
+		}
+	}
 }
 
 func (s *rzStore) SessionClosed(ctx context.Context, sess string) error {
@@ -265,6 +320,8 @@ type rzHarness struct {
 	yieldSite string        // one-shot: the next goroutine reaching this verifYield site parks
 	yieldGate chan struct{} // ... on this gate
 	yielded   bool          // a goroutine is parked at the site (the site is instrumented in this tree)
+	lastNote  string        // coverage note of the last op (read by the generator for its tags)
+	callKind  map[string]string // tag of a server->client call -> C (sampling) | P (ping) | R (roots/list)
 }
 
 func (h *rzHarness) sawStream(sess, stream string) {
@@ -329,6 +386,10 @@ func (h *rzHarness) payload(sess string, data []byte) string {
 			Message      string          `json:"message"`
 			SystemPrompt string          `json:"systemPrompt"`
 			RequestID    json.RawMessage `json:"requestId"`
+			Logger       string          `json:"logger"`
+			Meta         struct {
+				Verif string `json:"verif"`
+			} `json:"_meta"`
 		} `json:"params"`
 		Result *struct {
 			Content []struct {
@@ -346,8 +407,14 @@ func (h *rzHarness) payload(sess string, data []byte) string {
 	switch {
 	case m.Method == "notifications/progress":
 		return "N." + m.Params.Message
+	case m.Method == "notifications/message":
+		return "N." + m.Params.Logger
+	case m.Method == "notifications/resources/updated":
+		return "F." + m.Params.Meta.Verif
 	case m.Method == "sampling/createMessage":
 		return "C." + m.Params.SystemPrompt
+	case (m.Method == "ping" || m.Method == "roots/list") && m.Params.Meta.Verif != "":
+		return "C." + m.Params.Meta.Verif // server->client requests issued by `emit … P|R …`
 	case m.Method == "notifications/cancelled":
 		if tag, ok := h.callTags[sess+"#"+string(m.Params.RequestID)]; ok {
 			return "X." + tag
@@ -363,7 +430,7 @@ func (h *rzHarness) payload(sess string, data []byte) string {
 		if len(m.Result.Content) > 0 {
 			return "R." + id + "." + m.Result.Content[0].Text
 		}
-		return "R." + id + ".empty"
+		return "R." + id + ".plain" // an empty result: resources/subscribe (op `plain`)
 	case m.Error != nil:
 		return "R." + strings.Trim(string(m.ID), `"`) + ".err" + strconv.Itoa(m.Error.Code)
 	}
@@ -425,10 +492,17 @@ func (h *rzHarness) noteServerCall(sess string, data []byte) {
 		Method string          `json:"method"`
 		Params struct {
 			SystemPrompt string `json:"systemPrompt"`
+			Meta         struct {
+				Verif string `json:"verif"`
+			} `json:"_meta"`
 		} `json:"params"`
 	}
-	if json.Unmarshal(data, &m) == nil && m.Method == "sampling/createMessage" && len(m.ID) > 0 {
-		h.srvCalls[m.Params.SystemPrompt] = string(m.ID)
+	if json.Unmarshal(data, &m) == nil && len(m.ID) > 0 {
+		if m.Method == "sampling/createMessage" {
+			h.srvCalls[m.Params.SystemPrompt] = string(m.ID)
+		} else if (m.Method == "ping" || m.Method == "roots/list") && m.Params.Meta.Verif != "" {
+			h.srvCalls[m.Params.Meta.Verif] = string(m.ID)
+		}
 	}
 }
 
@@ -438,7 +512,10 @@ func rzNewHarness(t *testing.T, stateless, jsonMode, withStore bool) *rzHarness 
 	h := &rzHarness{t: t, stateless: stateless, jsonMode: jsonMode, byReal: map[string]*rzSess{}, calls: map[string]*rzCall{},
 		pending: map[string]*rzSess{}, results: map[string]string{}, srvCalls: map[string]string{}, cancels: map[string][]context.CancelFunc{}, owner: map[string]*rzSess{},
 		callTags: map[string]string{}, callIDs: map[string]string{}, callCancel: map[string]context.CancelFunc{}, ncalls: map[string]int{}}
-	h.server = NewServer(&Implementation{Name: "verif", Version: "1"}, nil)
+	h.server = NewServer(&Implementation{Name: "verif", Version: "1"}, &ServerOptions{
+		SubscribeHandler:   func(context.Context, *SubscribeRequest) error { return nil },
+		UnsubscribeHandler: func(context.Context, *UnsubscribeRequest) error { return nil },
+	})
 	h.server.AddTool(&Tool{Name: "t", InputSchema: json.RawMessage(`{"type":"object"}`)}, h.tool)
 	opts := &StreamableHTTPOptions{Stateless: stateless, JSONResponse: jsonMode, DisableLocalhostProtection: true}
 	if withStore {
@@ -469,6 +546,12 @@ func (h *rzHarness) tool(ctx context.Context, req *CallToolRequest) (*CallToolRe
 	}
 	json.Unmarshal(req.Params.Arguments, &args)
 	c := &rzCall{ctx: context.WithoutCancel(ctx), ss: req.Session, extra: req.Extra, respond: make(chan string, 1)}
+	// ServerSession.Log sends nothing until the client has set a level (`emit … L …`): set up as if it had
+	req.Session.mu.Lock()
+	if req.Session.state.LogLevel == "" {
+		req.Session.state.LogLevel = "debug"
+	}
+	req.Session.mu.Unlock()
 	h.mu.Lock()
 	h.calls[args.K] = c
 	if s := h.pending[args.K]; s != nil && s.conn == nil {
@@ -903,6 +986,25 @@ func (h *rzHarness) apply(toks []string) (obs string) {
 		}
 	}()
 	kv := rzKV(toks)
+	if kv["af"] == "1" && (toks[0] == "emit" || toks[0] == "resp") {
+		// `emit … af=1` / `resp … af=1`: the EventStore.Append of this write fails (if the write gets that far)
+		toks = toks[:len(toks)-1]
+		if h.store != nil {
+			h.mu.Lock()
+			h.store.failAppend, h.store.failed = true, false
+			h.mu.Unlock()
+			defer func() {
+				h.mu.Lock()
+				h.store.failAppend = false
+				if h.store.failed {
+					h.lastNote = "append-failed"
+				} else {
+					h.lastNote = "append-not-reached"
+				}
+				h.mu.Unlock()
+			}()
+		}
+	}
 	switch toks[0] {
 	case "init": // init <sess> id=<n> v=<a|b|c> b=<budget>
 		s := &rzSess{name: toks[1], streams: map[string]string{}}
@@ -922,6 +1024,17 @@ func (h *rzHarness) apply(toks []string) (obs string) {
 		h.postCall(name, kv)
 		synctest.Wait()
 		return h.observe(name)
+	case "plain": // plain <sess> id=<n> m=sub hv=<ver> b=<budget> : POST a request that is answered at once (resources/subscribe)
+		name := toks[1]
+		id, _ := strconv.Atoi(kv["id"])
+		body := fmt.Sprintf(`{"jsonrpc":"2.0","id":%d,"method":"resources/subscribe","params":{"uri":%q}}`, id, rzFanURI)
+		h.serve(rzReq{method: "POST", sess: name, version: rzVersion(kv["hv"]), body: body, budget: rzBudget(kv["b"])})
+		synctest.Wait()
+		return h.observe(name)
+	case "fanout": // fanout <sess> <req> x<post> <h|b> <serial> | <sess>… : Server.ResourceUpdated issued while <req> of <sess> is in flight
+		return h.fanout(toks)
+	case "getp": // getp <sessA> hv= last= k=<k> b= | <sessB> <req> x<post> <c|d> n=<n> <serial>
+		return h.getPressure(toks)
 	case "duprace": // duprace <sess> ids=<r> hv=<ver> : two POSTs carrying the same call id; the first is parked inside EventStore.Open while the second arrives
 		if h.store == nil || h.stateless {
 			return "bad-op"
@@ -1029,6 +1142,14 @@ func (h *rzHarness) apply(toks []string) (obs string) {
 			return "nocall"
 		}
 		body := fmt.Sprintf(`{"jsonrpc":"2.0","id":%s,"result":{"role":"assistant","model":"m","content":{"type":"text","text":"ok"}}}`, id)
+		h.mu.Lock()
+		switch h.callKind[toks[2]] {
+		case "P":
+			body = fmt.Sprintf(`{"jsonrpc":"2.0","id":%s,"result":{}}`, id)
+		case "R":
+			body = fmt.Sprintf(`{"jsonrpc":"2.0","id":%s,"result":{"roots":[]}}`, id)
+		}
+		h.mu.Unlock()
 		h.serve(rzReq{method: "POST", sess: toks[1], body: body, budget: -1})
 		synctest.Wait()
 		return h.observe(toks[1])
@@ -1155,7 +1276,7 @@ func (h *rzHarness) getReq(sess string, kv map[string]string) rzReq {
 func (h *rzHarness) emit(c *rzCall, kind string, ctx context.Context, tag string) func() string {
 	var mu sync.Mutex
 	res := "pending"
-	if kind != "N" {
+	if kind != "N" && kind != "L" {
 		// a pending server->client call blocks ServerSession.Close: make it abandonable
 		var cancel context.CancelFunc
 		ctx, cancel = context.WithCancel(ctx)
@@ -1168,6 +1289,10 @@ func (h *rzHarness) emit(c *rzCall, kind string, ctx context.Context, tag string
 			id := strconv.Itoa(h.ncalls[sess])
 			h.callTags[sess+"#"+id] = tag
 			h.callIDs[tag] = id
+			if h.callKind == nil {
+				h.callKind = map[string]string{}
+			}
+			h.callKind[tag] = kind
 		}
 		h.callCancel[tag] = cancel
 		h.mu.Unlock()
@@ -1183,6 +1308,13 @@ func (h *rzHarness) emit(c *rzCall, kind string, ctx context.Context, tag string
 		}()
 		if kind == "N" {
 			err = c.ss.NotifyProgress(ctx, &ProgressNotificationParams{ProgressToken: "p", Message: tag, Progress: 1})
+		} else if kind == "L" {
+			err = c.ss.Log(ctx, &LoggingMessageParams{Level: "info", Logger: tag, Data: "x"})
+		} else if kind == "P" {
+			// a server-initiated ping (what ServerOptions.KeepAlive sends): a server->client REQUEST on the stream
+			err = c.ss.Ping(ctx, &PingParams{Meta: Meta{"verif": tag}})
+		} else if kind == "R" {
+			_, err = c.ss.ListRoots(ctx, &ListRootsParams{Meta: Meta{"verif": tag}})
 		} else {
 			// The call returns only when the client answers; report the outcome of the *write*:
 			// a rejected write makes CreateMessage return at once.
@@ -1316,6 +1448,116 @@ func (h *rzHarness) raceRouted(toks []string) string {
 	return h.observe(w[0]) + " w=" + res() + " win=" + ws
 }
 
+const rzFanURI = "verif://r"
+
+func rzBar(toks []string) int {
+	for i, t := range toks {
+		if t == "|" {
+			return i
+		}
+	}
+	return -1
+}
+
+// fanout makes the server emit a session-independent notification (resources/updated to every subscribed session)
+// while a request of one session is being handled: with that handler's context, or with context.Background().
+func (h *rzHarness) fanout(toks []string) string {
+	bar := rzBar(toks)
+	if bar != 6 || h.stateless {
+		return "bad-op"
+	}
+	key := toks[1] + "." + toks[2] + "." + toks[3]
+	h.mu.Lock()
+	c := h.calls[key]
+	h.mu.Unlock()
+	if c == nil {
+		return "nocall"
+	}
+	ctx := c.ctx
+	if toks[4] == "b" {
+		ctx = context.Background()
+	}
+	tag := strings.Join(toks[1:6], ".")
+	var mu sync.Mutex
+	res := "pending"
+	go func() {
+		defer func() {
+			if r := recover(); r != nil {
+				mu.Lock()
+				res = "panic"
+				mu.Unlock()
+			}
+		}()
+		err := h.server.ResourceUpdated(ctx, &ResourceUpdatedNotificationParams{URI: rzFanURI, Meta: Meta{"verif": tag}})
+		mu.Lock()
+		defer mu.Unlock()
+		if err != nil {
+			res = "err"
+		} else {
+			res = "ok"
+		}
+	}()
+	synctest.Wait()
+	mu.Lock()
+	defer mu.Unlock()
+	return h.observe(toks[bar+1:]...) + " w=" + res
+}
+
+// getPressure serves a resuming GET of one session and, from inside EventStore.After's iteration (after its k-th item;
+// at its end if it yields fewer; after the GET if After was never reached), lets a handler of ANOTHER session write n
+// notifications: every Append of the bounded store purges first, so entries After has snapshotted but not yet yielded
+// are evicted underneath the replay.
+func (h *rzHarness) getPressure(toks []string) string {
+	bar := rzBar(toks)
+	if bar < 0 || h.store == nil || h.stateless || len(toks) < bar+7 {
+		return "bad-op"
+	}
+	g, w := toks[1:bar], toks[bar+1:]
+	if w[0] == g[0] {
+		return "bad-op" // the writer must be another session (the GET holds its stream's lock)
+	}
+	key := w[0] + "." + w[1] + "." + w[2]
+	h.mu.Lock()
+	c := h.calls[key]
+	h.mu.Unlock()
+	if c == nil {
+		return "nocall"
+	}
+	kvg, kvw := rzKV(g), rzKV(w)
+	k, _ := strconv.Atoi(kvg["k"])
+	n, _ := strconv.Atoi(kvw["n"])
+	serial, _ := strconv.Atoi(w[len(w)-1])
+	ctx := c.ctx
+	if w[3] == "d" {
+		ctx = context.Background()
+	}
+	fire := func() {
+		for i := 0; i < n; i++ {
+			tag := strings.Join([]string{w[0], w[1], w[2], w[3], strconv.Itoa(serial + i)}, ".")
+			func() {
+				defer func() { recover() }()
+				c.ss.NotifyProgress(ctx, &ProgressNotificationParams{ProgressToken: "p", Message: tag, Progress: 1})
+			}()
+		}
+	}
+	hook := &rzAfterHook{k: k, fire: fire}
+	h.mu.Lock()
+	h.store.afterHook = hook
+	h.mu.Unlock()
+	h.serve(h.getReq(g[0], kvg))
+	synctest.Wait()
+	h.mu.Lock()
+	h.store.afterHook = nil
+	h.mu.Unlock()
+	if hook.where == "" {
+		hook.where = "late"
+		fire()
+		synctest.Wait()
+	}
+	h.lastNote = "pressure-" + hook.where
+	return h.observe(g[0], w[0])
+}
+
 // abandon cancels the pending server->client calls of a session (Close would wait for them).
 func (h *rzHarness) abandon(sess string) {
 	h.mu.Lock()
@@ -1430,7 +1672,8 @@ type rzGSess struct {
 	gone     bool     // deleted / killed / closed
 	newProto bool
 	listen   bool
-	postX    int // stateless: the POST exchange
+	postX    int  // stateless: the POST exchange
+	sub      bool // resources/subscribe was answered: the session is entitled to resources/updated
 }
 
 type rzGen struct {
@@ -1461,6 +1704,9 @@ type rzGen struct {
 	again     *rzGAgain
 	broken    int // resumes that broke during their replay
 	reresumes int // resumes that follow one that was gone again
+	fanouts   int  // server-level notifications issued from inside a handler
+	pressures int  // resumes with another session's appends (purges) in the middle of the replay
+	maxb      bool // a standing store limit is in force
 }
 
 type rzGAgain struct {
@@ -1561,7 +1807,7 @@ func (g *rzGen) do(op string, tags ...string) string {
 				if len(toks) > 1 {
 					sess = toks[1]
 				}
-				if toks[0] == "racewg" || toks[0] == "racegw" || toks[0] == "racerg" {
+				if toks[0] == "racewg" || toks[0] == "racegw" || toks[0] == "racerg" || toks[0] == "getp" {
 					sess = toks[1]
 				}
 				g.hang[n] = sess
@@ -1570,6 +1816,10 @@ func (g *rzGen) do(op string, tags ...string) string {
 				tags = append(tags, "get-broke-during-replay")
 			}
 		}
+	}
+	if (toks[0] == "getp" || strings.HasSuffix(op, " af=1")) && g.h.lastNote != "" {
+		tags = append(tags, g.h.lastNote)
+		g.h.lastNote = ""
 	}
 	g.out.line(g.cs, op, obs, append([]string{toks[0]}, tags...)...)
 	return obs
@@ -1617,6 +1867,141 @@ func (g *rzGen) newSession() {
 	if g.chance(50) {
 		g.do(fmt.Sprintf("note %s hv=%s", name, g.version()))
 	}
+	if g.prop == "C10" && g.prng != nil && g.prng.Intn(100) < 60 {
+		g.subscribe(s)
+	}
+}
+
+// subscribe POSTs resources/subscribe with a request id that is free in the session.
+func (g *rzGen) subscribe(s *rzGSess) {
+	inflight := map[int]bool{}
+	for _, r := range s.parked() {
+		inflight[r.id] = true
+	}
+	id := 1 + g.prng.Intn(4)
+	for k := 1; inflight[id] && k <= 6; k++ {
+		id = k
+	}
+	obs := g.do(fmt.Sprintf("plain %s id=%d m=sub hv=%s", s.name, id, []string{"-", "a", "b", "c", "c"}[g.prng.Intn(5)]), "plain-sub")
+	if strings.Contains(obs, fmt.Sprintf("R.%d.plain", id)) {
+		s.sub = true
+	}
+}
+
+// fanout: while a request of some session is in flight, the server announces a resource change to every subscribed
+// session (Server.ResourceUpdated with the handler's context or with context.Background()).
+func (g *rzGen) fanout() bool {
+	var origins []*rzGSess
+	nsub := 0
+	for _, s := range g.liveSess() {
+		if len(s.reqs) > 0 {
+			origins = append(origins, s)
+		}
+		if s.sub {
+			nsub++
+		}
+	}
+	if len(origins) == 0 || nsub == 0 {
+		return false
+	}
+	a := origins[g.prng.Intn(len(origins))]
+	var q *rzGReq
+	if p := a.parked(); len(p) > 0 && g.prng.Intn(100) < 85 {
+		q = p[g.prng.Intn(len(p))]
+	} else {
+		q = a.reqs[g.prng.Intn(len(a.reqs))]
+	}
+	flag := "h"
+	if g.prng.Intn(100) < 30 {
+		flag = "b"
+	}
+	tags := []string{"fanout-" + flag}
+	for _, s := range g.liveSess() {
+		if s == a || !s.sub {
+			continue
+		}
+		tags = append(tags, "fanout-to-other-session")
+		for _, r := range s.parked() {
+			if r.id == q.id {
+				tags = append(tags, "fanout-other-session-same-id-in-flight")
+			}
+		}
+		if st := s.streams["t0"]; st != nil && st.att != 0 {
+			tags = append(tags, "fanout-other-session-has-standalone")
+		}
+	}
+	if a.sub {
+		tags = append(tags, "fanout-origin-subscribed")
+	}
+	var names []string
+	for _, x := range g.sess {
+		names = append(names, x.name)
+	}
+	g.serial++
+	g.fanouts++
+	g.do(fmt.Sprintf("fanout %s %d x%d %s %d | %s", a.name, q.id, q.x, flag, g.serial, strings.Join(names, " ")), tags...)
+	return true
+}
+
+// pressure: a resume of one session while a handler of another session appends (the bounded store purges) in the middle
+// of the replay.
+func (g *rzGen) pressure() bool {
+	live := g.liveSess()
+	if len(live) < 2 {
+		return false
+	}
+	type cand struct {
+		a    *rzGSess
+		t    string
+		napp int
+	}
+	var cands []cand
+	for _, s := range live {
+		var names []string
+		for n := range s.streams {
+			names = append(names, n)
+		}
+		sort.Strings(names)
+		for _, n := range names {
+			if st := s.streams[n]; st.napp >= 3 && st.att == 0 {
+				cands = append(cands, cand{s, n, st.napp})
+			}
+		}
+	}
+	if len(cands) == 0 {
+		return false
+	}
+	c := cands[g.prng.Intn(len(cands))]
+	var writers []*rzGSess
+	for _, s := range live {
+		if s != c.a && len(s.parked()) > 0 {
+			writers = append(writers, s)
+		}
+	}
+	if len(writers) == 0 {
+		return false
+	}
+	b := writers[g.prng.Intn(len(writers))]
+	q := b.parked()[g.prng.Intn(len(b.parked()))]
+	if !g.maxb {
+		g.maxb = true
+		g.do(fmt.Sprintf("maxbytes %d", 150+g.prng.Intn(700)), "maxbytes")
+	}
+	idx := g.prng.Intn(c.napp - 2) // at least two entries after it
+	k := 1 + g.prng.Intn(c.napp-idx-2)
+	n := 1 + g.prng.Intn(3)
+	flag := "c"
+	if g.prng.Intn(100) < 40 {
+		flag = "d"
+	}
+	serial := g.serial + 1
+	g.serial += n
+	g.resumes++
+	g.pressures++
+	op := fmt.Sprintf("getp %s hv=%s last=%s_%d k=%d | %s %d x%d %s n=%d %d", c.a.name, []string{"-", "a", "b", "c", "c"}[g.prng.Intn(5)], c.t, idx, k,
+		b.name, q.id, q.x, flag, n, serial)
+	g.do(op, "get-resume", "get-under-store-pressure")
+	return true
 }
 
 func (g *rzGen) call(s *rzGSess) {
@@ -1725,6 +2110,18 @@ func (g *rzGen) emit(s *rzGSess, r *rzGReq) {
 	if g.chance(35) {
 		flag = "d"
 	}
+	if kind == "N" && g.prop == "C10" && !g.stateless && !s.newProto && g.prng != nil && g.prng.Intn(100) < 20 {
+		kind = "L" // ServerSession.Log to the handler's own session
+	}
+	if kind == "C" && !g.stateless && !s.newProto && g.prng != nil {
+		// other server->client requests: a ping (what keep-alive sends), roots/list
+		switch r := g.prng.Intn(100); {
+		case r < 45:
+			kind = "P"
+		case r < 60:
+			kind = "R"
+		}
+	}
 	if r.responded && flag == "c" && !g.idReuse {
 		// A straggler that still uses the context of a finished request is rejected by the server —
 		// unless the client has meanwhile reused that request id for a new request of the same session
@@ -1741,8 +2138,12 @@ func (g *rzGen) emit(s *rzGSess, r *rzGReq) {
 	if r.responded {
 		t += "-after-response"
 	}
-	obs := g.do(fmt.Sprintf("emit %s %d x%d %s %s %d", s.name, r.id, r.x, kind, flag, g.serial), t)
-	if kind == "C" && strings.HasSuffix(obs, "w=pending") {
+	af := ""
+	if g.prop == "C02" && g.store && !g.stateless && g.prng != nil && g.prng.Intn(100) < 15 {
+		af, t = " af=1", t+"-append-fails"
+	}
+	obs := g.do(fmt.Sprintf("emit %s %d x%d %s %s %d%s", s.name, r.id, r.x, kind, flag, g.serial, af), t)
+	if (kind == "C" || kind == "P" || kind == "R") && strings.HasSuffix(obs, "w=pending") {
 		s.calls = append(s.calls, tag)
 	}
 }
@@ -1868,6 +2269,29 @@ func (g *rzGen) stepStateful() {
 		g.do(fmt.Sprintf("purge %d", 1+g.prng.Intn(700)), "purge")
 		return
 	}
+	if g.prop == "C10" && g.prng != nil && g.nsess > 0 && g.prng.Intn(100) < 14 {
+		if g.fanout() {
+			return
+		}
+	}
+	if g.prop == "C10" && g.prng != nil && g.prng.Intn(100) < 4 {
+		// a session subscribes later in its life
+		var l []*rzGSess
+		for _, s := range g.liveSess() {
+			if !s.sub {
+				l = append(l, s)
+			}
+		}
+		if len(l) > 0 {
+			g.subscribe(l[g.prng.Intn(len(l))])
+			return
+		}
+	}
+	if g.prop == "C08" && g.store && g.prng != nil && g.nsess > 1 && g.prng.Intn(100) < 12 {
+		if g.pressure() {
+			return
+		}
+	}
 	if a := g.again; a != nil && g.prng != nil && g.prng.Intn(100) < 55 {
 		if s := g.find(a.sess); s != nil && !s.gone {
 			// the client resumes again from the id it has: mostly on a healthy connection, sometimes on one that breaks too
@@ -1953,6 +2377,11 @@ func (g *rzGen) stepStateful() {
 		if len(parked) > 0 {
 			q := parked[g.pick(len(parked))]
 			q.responded = true
+			if g.prop == "C02" && g.store && g.prng != nil && g.prng.Intn(100) < 30 {
+				// the event store fails to record this response (first / middle / last of a batch as it comes)
+				g.do(fmt.Sprintf("resp %s %d x%d af=1", s.name, q.id, q.x), "resp-append-fails")
+				return
+			}
 			g.do(fmt.Sprintf("resp %s %d x%d", s.name, q.id, q.x))
 			return
 		}
@@ -2119,7 +2548,7 @@ func rzGenCase(t *testing.T, out *verifOut, c int, prop string) (cuts, resumes, 
 			// cuts, and ids from a small pool reused after completion
 			g.stateless = false
 			g.jsonMode = r%4 == 0
-			g.store = r%5 == 0
+			g.store = r%5 == 0 || r%7 == 3
 			g.maxSess = 1 + rng.Intn(2)
 		} else if prop == "C10" {
 			g.stateless = r%4 == 0
@@ -2152,6 +2581,7 @@ func rzGenCase(t *testing.T, out *verifOut, c int, prop string) (cuts, resumes, 
 		if g.store && !g.stateless && g.prng.Intn(100) < 12 {
 			// a small standing limit: appends evict as they go
 			g.do(fmt.Sprintf("maxbytes %d", 150+g.prng.Intn(1500)), "maxbytes")
+			g.maxb = true
 		}
 		n := 8 + rng.Intn(28)
 		for i := 0; i < n && !g.stop; i++ {
@@ -2186,6 +2616,12 @@ func rzGenCase(t *testing.T, out *verifOut, c int, prop string) (cuts, resumes, 
 		if g.reresumes > 0 {
 			tags = append(tags, "case-with-resume-after-gone-resume")
 		}
+		if g.fanouts > 0 {
+			tags = append(tags, "case-with-fanout-from-handler")
+		}
+		if g.pressures > 0 {
+			tags = append(tags, "case-with-store-pressure-during-replay")
+		}
 		out.line(cs, "endcase", "ok", append([]string{"endcase"}, tags...)...)
 		cuts, resumes, races = g.cuts, g.resumes, g.races
 		g.h.finish()
@@ -2206,6 +2642,12 @@ func rzReplayFile(t *testing.T, out *verifOut, path, cs string) {
 			continue
 		}
 		ops = append(ops, ln)
+	}
+	if cs != "replay" && strings.Contains(string(b), " af=1") && os.Getenv("VERIF_PROPERTY") != "C02" {
+		// a failing EventStore.Append is outside C08 (which assumes the store meets its contract: the ids of everything
+		// after an unstored message are off by one — Lean: `append_failure_breaks_alignment`) and outside C10's
+		// "response neither delivered nor stored" check: such corpus cases run under C02 only
+		return
 	}
 	rzRunCase(t, out, cs, ops, func(op, obs string) []string { return []string{"corpus", strings.Fields(op)[0]} })
 	rzFlush(out)
